@@ -538,10 +538,227 @@ static void judge(Ctx &C, const RG &g, const Labelling &L, bool exhaustive_start
   R.counter_max("max_edges", (long)g.e.size());
 }
 
+// ------------------------------------------------------------------ reuse: objects queried repeatedly and modified in between
+// Reference for every query on a re-used object: the absolute oracle where the statement gives one (relabelled
+// copies are equivalent, different bead multisets are different, single <=> connected without isolated vertex,
+// parts = union-find components) and otherwise the same query on freshly built objects of identical content.
+static std::string check_parts(std::vector<BeadStructure> parts, const RG &g, const Labelling &L) {
+  std::map<Index, int> back;
+  for (int i = 0; i < g.n; ++i) back[L.id[i]] = i;
+  ESet Eref;
+  for (auto &p : g.e) { Index a = L.id[p.first], b = L.id[p.second]; Eref.insert({std::min(a, b), std::max(a, b)}); }
+  std::vector<int> comp = g.comp();
+  std::map<Index, int> seenv;
+  ESet seene;
+  for (size_t pi = 0; pi < parts.size(); ++pi) {
+    std::vector<Index> ids = parts[pi].getBeadIds();
+    if (ids.empty()) return "empty part";
+    int c0 = -1;
+    for (Index id : ids) {
+      if (!back.count(id)) return "unknown bead id in a part";
+      if (seenv.count(id)) return "bead in two parts";
+      seenv[id] = (int)pi;
+      int c = comp[back[id]];
+      if (c0 < 0) c0 = c; else if (c != c0) return "part spans two components";
+    }
+    bool dup = false;
+    ESet pe = eset(parts[pi].getGraph().getEdges(), dup);
+    if (dup) return "duplicate edge in a part";
+    for (auto &e : pe) {
+      if (!Eref.count(e)) return "edge not in the structure";
+      if (!seene.insert(e).second) return "edge in two parts";
+      if (!seenv.count(e.first) || seenv[e.first] != (int)pi || !seenv.count(e.second) || seenv[e.second] != (int)pi) return "edge leaves its part";
+    }
+  }
+  if ((int)parts.size() != g.ncomp()) return "number of parts != number of connected components";
+  if ((int)seenv.size() != g.n) return "a bead is in no part";
+  if (seene.size() != Eref.size()) return "an edge is in no part";
+  return "";
+}
+static void judge_reuse(Ctx &C, const RG &g0, const Labelling &L0) {
+  vfh::Reporter &R = C.R;
+  vfh::Rng &rng = C.rng;
+  RG g = g0;
+  Labelling N = natural(g), L = L0;
+  std::ostringstream hist;  // what was done to the two objects, for the witness
+  auto wit = [&]() { J j = witness(g, L); j.s("history", hist.str()); return j; };
+  { J j = witness(g0, L0); j.s("family", "reuse"); vfh::set_case(j.str()); }
+  try {
+    BeadStructure A = build(g, N), B = build(g, L);
+    auto want_single = [&]() { return g.ncomp() == 1 && g.n >= 2; };
+    auto q_single = [&](const char *when) {
+      R.eval("reuse_single_structure");
+      bool got = B.isSingleStructure(), got2 = A.isSingleStructure();
+      hist << "isSingleStructure;";
+      if (got != want_single() || got2 != want_single())
+        R.violation("structure-reuse/single-structure", std::string("isSingleStructure on a re-used structure (") + when + ") differs from 'connected and no isolated vertex'", wit().b("got_relabelled", got).b("got_natural", got2).b("expected", want_single()));
+    };
+    auto q_break = [&](const char *when) {
+      R.eval("reuse_break_into_structures");
+      std::string bad = check_parts(breakIntoStructures(B), g, L);
+      hist << "breakIntoStructures;";
+      if (!bad.empty()) R.violation("structure-reuse/break-into-structures", std::string("breakIntoStructures on a re-used structure (") + when + "): " + bad, wit());
+    };
+    auto q_equiv = [&](bool expect, const char *when) {
+      R.eval("reuse_equivalence");
+      bool ab = A.isStructureEquivalent(B), ba = B.isStructureEquivalent(A), ab2 = A.isStructureEquivalent(B);
+      hist << "A~B,B~A,A~B;";
+      if (ab != ba || ab != ab2)
+        R.violation("structure-reuse/repeated-query-disagrees", std::string("isStructureEquivalent gives different answers when repeated / reversed (") + when + ")", wit().b("a_b", ab).b("b_a", ba).b("a_b_again", ab2));
+      else if (ab != expect)
+        R.violation("structure-reuse/equivalence-after-modification", std::string("isStructureEquivalent on re-used structures (") + when + ") is wrong", wit().b("got", ab).b("expected", expect));
+    };
+    // order of the first queries varies: break before single and vice versa, equivalence first or last
+    int order = (int)rng.range(0, 2);
+    if (order == 0) { q_single("first query"); q_break("after isSingleStructure"); q_equiv(true, "after single/break"); }
+    else if (order == 1) { q_break("first query"); q_single("after breakIntoStructures"); q_equiv(true, "after break/single"); }
+    else { q_equiv(true, "first query"); q_break("after isStructureEquivalent"); q_single("after equivalence/break"); }
+    // ---- modifications in between: new bead (attached or isolated), new connection
+    int nmods = (int)rng.range(1, 3);
+    for (int m = 0; m < nmods; ++m) {
+      bool new_bead = rng.coin(0.65) || g.n < 2;
+      if (new_bead) {
+        int v = g.n;
+        std::string nm = rng.coin() ? g.name[rng.next() % g.n] : std::string("Q7");
+        double ms = rng.coin() ? g.mass[rng.next() % g.n] : 55.5;
+        bool attach = rng.coin(0.7);
+        int u = (int)rng.range(0, g.n - 1);
+        Index newid;
+        std::set<Index> used(L.id.begin(), L.id.end());
+        do { newid = rng.range(0, 3000000000L); } while (used.count(newid));
+        // first only the relabelled structure gets the bead: bead multisets differ -> must be different
+        B.AddBead(TB{newid, ms, nm});
+        hist << "B.AddBead(" << newid << "," << nm << ");";
+        {
+          R.eval("reuse_equivalence");
+          bool ab = A.isStructureEquivalent(B), ba = B.isStructureEquivalent(A);
+          hist << "A~B,B~A;";
+          if (ab || ba) R.violation("structure-reuse/equivalence-after-modification", "a bead added to one of two equivalent structures after a query: still reported equivalent (stale structure id)", wit().b("a_b", ab).b("b_a", ba));
+        }
+        A.AddBead(TB{(Index)v, ms, nm});
+        hist << "A.AddBead(" << v << ");";
+        g.n += 1; g.name.push_back(nm); g.mass.push_back(ms);
+        L.id.push_back(newid); L.bead_order.push_back(v);
+        N.id.push_back(v); N.bead_order.push_back(v);
+        if (attach) {
+          g.e.push_back({u, v});
+          L.edge_order.push_back((int)g.e.size() - 1); L.edge_flip.push_back(0);
+          N.edge_order.push_back((int)g.e.size() - 1); N.edge_flip.push_back(0);
+          A.ConnectBeads(u, v);
+          B.ConnectBeads(newid, L.id[u]);
+          hist << "connect(" << u << "," << v << ");";
+        }
+      } else {
+        // a new connection between two beads that are not connected yet (if there is one)
+        std::set<std::pair<int, int>> es(g.e.begin(), g.e.end());
+        int u = -1, v = -1;
+        for (int t = 0; t < 30 && u < 0; ++t) {
+          int a = (int)rng.range(0, g.n - 1), b = (int)rng.range(0, g.n - 1);
+          if (a == b) continue;
+          if (a > b) std::swap(a, b);
+          if (!es.count({a, b})) { u = a; v = b; }
+        }
+        if (u < 0) continue;
+        // first only one structure: the verdict must be what freshly built structures give
+        B.ConnectBeads(L.id[v], L.id[u]);
+        hist << "B.connect(" << u << "," << v << ");";
+        {
+          RG g2 = g;
+          g2.e.push_back({u, v});
+          Labelling L2 = L;
+          L2.edge_order.push_back((int)g2.e.size() - 1); L2.edge_flip.push_back(0);
+          BeadStructure FA = build(g, N), FB = build(g2, L2);
+          bool fresh = FA.isStructureEquivalent(FB);
+          R.eval("reuse_equivalence");
+          bool ab = A.isStructureEquivalent(B), ba = B.isStructureEquivalent(A);
+          hist << "A~B,B~A;";
+          if (ab != fresh || ba != fresh) R.violation("structure-reuse/equivalence-after-modification", "a connection added to one structure after a query: verdict differs from freshly built structures (stale structure id)", wit().b("a_b", ab).b("b_a", ba).b("fresh", fresh));
+        }
+        A.ConnectBeads(u, v);
+        hist << "A.connect;";
+        g.e.push_back({u, v});
+        L.edge_order.push_back((int)g.e.size() - 1); L.edge_flip.push_back(0);
+        N.edge_order.push_back((int)g.e.size() - 1); N.edge_flip.push_back(0);
+      }
+      // both structures modified alike: relabelled copies again
+      int o2 = (int)rng.range(0, 2);
+      if (o2 == 0) { q_equiv(true, "after the same modification of both"); q_single("after modification"); q_break("after modification"); }
+      else if (o2 == 1) { q_break("after modification"); q_equiv(true, "after the same modification of both"); q_single("after modification"); }
+      else { q_single("after modification"); q_break("after modification"); q_equiv(true, "after the same modification of both"); }
+    }
+    // the cached graph after all of this has the structure's vertices and edges
+    {
+      R.eval("reuse_getgraph");
+      Graph G = B.getGraph();
+      std::vector<Index> vs = G.getVertices();
+      std::set<Index> got(vs.begin(), vs.end()), want(L.id.begin(), L.id.end());
+      bool dup = false;
+      ESet ge = eset(G.getEdges(), dup), Eref;
+      for (auto &p : g.e) { Index a = L.id[p.first], b = L.id[p.second]; Eref.insert({std::min(a, b), std::max(a, b)}); }
+      if (got != want || ge != Eref || dup) R.violation("structure-reuse/getgraph", "getGraph() of a modified structure does not have its beads and connections", wit());
+    }
+    // ---- Graph objects used more than once
+    {
+      Graph G = build(g, L).getGraph();
+      Graph fresh = G;
+      std::string id_fresh = findStructureId<GraphDistVisitor>(fresh);
+      std::string id1 = findStructureId<GraphDistVisitor>(G), id2 = findStructureId<GraphDistVisitor>(G);
+      R.eval("reuse_structure_id_twice");
+      if (id1 != id_fresh) R.violation("graph-reuse/structure-id", "findStructureId of a copy differs from the original's", wit());
+      else if (id2 != id1) {
+        // a second call starts from a graph that carries the labels of the first; for a connected graph every label is
+        // rewritten, for a disconnected one the components not reached keep the old labels (not covered by the statement)
+        if (g.ncomp() == 1) R.violation("graph-reuse/structure-id", "findStructureId called twice on the same connected Graph object gives two different ids", wit().s("first", id1).s("second", id2));
+        else R.counter("obs_structure_id_second_call_differs_on_disconnected_graph");
+      }
+      // explore the labelled graph again from another start: reachable vertices carry the distances of THIS start
+      int s = (int)rng.range(0, g.n - 1);
+      GraphDistVisitor gv;
+      gv.setStartingVertex(L.id[s]);
+      exploreGraph(G, gv);
+      std::vector<int> d = g.bfs(s);
+      R.eval("reuse_second_exploration");
+      for (int i = 0; i < g.n; ++i) {
+        GraphNode gn = G.getNode(L.id[i]);
+        bool has = true;
+        Index dist = -1;
+        try { dist = gn.getInt("Dist"); } catch (std::invalid_argument &) { has = false; }
+        if (d[i] >= 0 && (!has || dist != d[i])) { R.violation("graph-reuse/dist-second-exploration", "a second exploration of the same Graph object leaves a wrong distance on a reachable vertex", wit().i("start", L.id[s]).i("vertex", L.id[i]).i("got", has ? (long)dist : -1).i("expected", d[i])); break; }
+        if (d[i] < 0 && has) R.counter("obs_stale_distance_label_on_unreachable_vertex");
+      }
+      // reduce + expand of the graph that was explored before
+      R.eval("reuse_reduce_after_explore");
+      Graph X = reduceGraph(G).expandGraph();
+      std::vector<Index> xv = X.getVertices();
+      std::set<Index> xs(xv.begin(), xv.end()), want(L.id.begin(), L.id.end());
+      bool dup = false;
+      ESet xe = eset(X.getEdges(), dup), Eref;
+      for (auto &p : g.e) { Index a = L.id[p.first], b = L.id[p.second]; Eref.insert({std::min(a, b), std::max(a, b)}); }
+      if (xs != want || xe != Eref || dup || xs.size() != xv.size()) R.violation("graph-reuse/reduce-after-explore", "expand(reduce(G)) of a graph that was explored before is not lossless", wit());
+      // and the decomposition of the explored graph
+      R.eval("reuse_decouple_after_explore");
+      std::vector<Graph> subs = decoupleIsolatedSubGraphs(G);
+      size_t nv = 0, ne = 0;
+      for (auto &sg : subs) { nv += sg.getVertices().size(); ne += sg.getEdges().size(); }
+      if ((int)subs.size() != g.ncomp() || nv != (size_t)g.n || ne != Eref.size()) R.violation("graph-reuse/decouple-after-explore", "decoupleIsolatedSubGraphs of a graph that was explored before: components differ", wit().i("subgraphs", (long)subs.size()).i("components", g.ncomp()));
+    }
+    if (g.e.size() >= 2) {
+      uint64_t h = vfh::hstr(7, g.str());
+      for (Index v : L.id) h = vfh::hmix(h, (uint64_t)v);
+      R.nontrivial(vfh::hstr(h, hist.str()));
+    }
+    if (R.want_sample() && g.n >= 5 && g.n <= 9) R.sample(wit());
+  } catch (std::exception &e) {
+    R.violation("exception/reuse/" + std::string(typeid(e).name()), std::string("library threw on a valid sequence of operations: ") + e.what(), wit());
+  }
+}
+
 int main(int argc, char **argv) {
   vfh::Args A(argc, argv);
   long seed = A.num("seed", 1), shard = A.num("shard", 0), nshards = A.num("shards", 16);
   long relabels = A.num("relabels", 6), nclass = A.num("classes", 30), nrandom = A.num("random", 20);
+  long reuse_every = A.num("reuse-every", 1);
+  long ncase = 0;
   vfh::Reporter R;
   vfh::Rng rng((uint64_t)seed * 7919 + (uint64_t)shard * 104729 + 16);
   Ctx C{R, rng};
@@ -570,6 +787,7 @@ int main(int argc, char **argv) {
       gen_attrs(g, rng);
       Labelling L = k == 0 ? natural(g) : relabel(g, rng);
       judge(C, g, L, g.n <= 8);
+      judge_reuse(C, g, L);
     }
     R.summary();
     return 0;
@@ -585,6 +803,7 @@ int main(int argc, char **argv) {
         gen_attrs(g, rng);
         Labelling L = k == 0 ? natural(g) : relabel(g, rng);
         judge(C, g, L, true);
+        if (ncase++ % reuse_every == 0) judge_reuse(C, g, L);
       }
       R.counter("exhaustive_classes_done");
     }
@@ -595,6 +814,7 @@ int main(int argc, char **argv) {
       gen_attrs(g, rng);
       Labelling L = relabel(g, rng);
       judge(C, g, L, g.n <= 8);
+      if (ncase++ % reuse_every == 0) judge_reuse(C, g, L);
     }
   }
   for (long i = 0; i < nrandom; ++i) {
@@ -603,6 +823,7 @@ int main(int argc, char **argv) {
       gen_attrs(g, rng);
       Labelling L = relabel(g, rng);
       judge(C, g, L, false);
+      if (k == 0 && g.n <= 30) judge_reuse(C, g, L);
     }
   }
   R.summary();
